@@ -110,11 +110,17 @@ def run(tier):
         with open(path, "w") as fp:
             for j in range(200 if quick else 4000):
                 n = rng.randint(4, 72)
-                while True:
-                    cuts = sorted(rng.sample(range(0, 360), n))
-                    gaps = [cuts[i + 1] - cuts[i] for i in range(n - 1)] + [360 - (cuts[-1] - cuts[0])]
-                    if max(gaps) < 180:
-                        break
+                steps = [st for st in range(1, 120) if 180 < (n - 1) * st < 360]
+                if j % 4 == 3 and steps:
+                    # equidistant nodes that do not (necessarily) close the circle: the wrap bin is wider than the step
+                    st = rng.choice(steps)
+                    cuts = [i * st for i in range(n)]
+                else:
+                    while True:
+                        cuts = sorted(rng.sample(range(0, 360), n))
+                        gaps = [cuts[i + 1] - cuts[i] for i in range(n - 1)] + [360 - (cuts[-1] - cuts[0])]
+                        if max(gaps) < 180:
+                            break
                 start = rng.randint(-400, 400)
                 pts = [v + start for v in cuts]
                 if rng.random() < 0.3:
@@ -122,7 +128,9 @@ def run(tier):
                 nan = [1 if rng.random() < 0.08 else 0 for _ in pts]
                 fv = [rng.randint(-20, 20) for _ in pts]
                 mode = rng.choice(["linear", "linear", "nearest"])
-                xs = [rng.randint(-1000, 1000) for _ in range(14)] + rng.sample(pts, 3) + [pts[0] + 360, pts[-1] - 360]
+                hi_, lo_ = max(pts), min(pts)
+                wrapbin = [hi_ + rng.randint(0, 360 - (hi_ - lo_)) + 360 * rng.randint(-2, 2) for _ in range(4)]
+                xs = [rng.randint(-1000, 1000) for _ in range(12)] + wrapbin + rng.sample(pts, 3) + [pts[0] + 360, pts[-1] - 360]
                 name = rng.choice(["direction", "longitude"])
                 ds = xarray.Dataset()
                 ds["v"] = xarray.DataArray(np.array([np.nan if m else float(v) for v, m in zip(fv, nan)]), dims=[name],
